@@ -8,6 +8,8 @@ import socket
 from collections import namedtuple
 from ipaddress import ip_address, ip_network
 
+from cryptography.exceptions import UnsupportedAlgorithm
+
 import xfrm
 from crypto import RsaPrivateKey, RsaPublicKey
 from message import InvalidSyntax, PayloadID, Proposal, TrafficSelector, Transform
@@ -98,7 +100,7 @@ class Configuration(object):
                 self.ike_configurations[(ikeconf.my_addr, ikeconf.peer_addr)] = ikeconf
             except KeyError as ex:
                 raise ConfigurationError(f'Mandatory parameter {ex} missing for connection "{connection_name}"')
-            except (AttributeError, TypeError, ValueError) as ex:
+            except (AttributeError, TypeError, ValueError, UnsupportedAlgorithm) as ex:
                 raise ConfigurationError(f'Invalid value in connection "{connection_name}": {ex}')
             except InvalidSyntax as ex:
                 raise ConfigurationError(f'Invalid proposal in connection "{connection_name}": {ex}')
